@@ -25,7 +25,7 @@ CLAIM = dict(
 )
 RULE = (
     "Lambert: |r0| x transfer angle x radius ratio x plane x time-of-flight class x prograde flag; SSO: (a, e) grid; B-plane: "
-    "e x anomaly x orientation x body; LTAN: date x node x type; Walker: every t<=bound, p|t, f<p, Star/Delta, raan0; beta: "
+    "e x anomaly x orientation x body; LTAN: date x node x type; Walker: every t<=bound, p|t, f<p, Star/Delta, 7 values of raan0 (0, > pi, negative); beta: "
     "orbit x date x frame x body. non-trivial = all cases (none is an identity); distinct by tuple"
 )
 BOUNDS = {
@@ -210,6 +210,67 @@ def check_sso(case, t):
     t.outcome(("sso", round(i, 2)))
 
 
+
+def check_sso_hist(case, t):
+    """The node-drift clause with RE-USED objects: one J2() instance shared by successive orbits at a common epoch
+    ('shared'), or one Orbit object whose elements are rewritten in place after a first propagation ('inplace').
+    The first orbit is deliberately not sun-synchronous.  Every answer must equal a fresh object's answer and give
+    the mean solar node rate."""
+    from beyond.utils.leo import sso
+    from beyond.dates import Date, timedelta
+    from beyond.orbits import Orbit
+    from beyond.propagators.j2 import J2
+
+    d0 = Date(2015, 6, 1)
+    days = 10
+    d1 = d0 + timedelta(days=days)
+    want = 2 * math.pi / TROPICAL_YEAR
+    mode = case["mode"]
+    clause = "the sun-synchronous inclination makes the J2 node drift equal the mean solar rate (whatever the propagator computed before)"
+    sig = "sso/node-drift/" + ("shared-propagator" if mode == "shared" else "in-place-update")
+    a0, e0 = case["grid"][0]
+    try:
+        if mode == "shared":
+            pr = J2()
+            first = Orbit([a0, e0, 0.9, 1.0, 0.5, 0.2], d0, "keplerian_mean", "EME2000", pr)
+            first.propagate(d1)
+        else:
+            orb = Orbit([a0, e0, 0.9, 1.0, 0.5, 0.2], d0, "keplerian_mean", "EME2000", "J2")
+            orb.propagate(d1)
+        t.trans()
+        for a, e in case["grid"]:
+            i = float(sso(a=a, e=e))
+            if not math.isfinite(i):
+                t.exclude("no sun-synchronous inclination for this (a, e)")
+                continue
+            if mode == "shared":
+                o = Orbit([a, e, i, 1.0, 0.5, 0.2], d0, "keplerian_mean", "EME2000", pr)
+            else:
+                orb[0] = a
+                orb[1] = e
+                orb[2] = i
+                o = orb
+            r = o.propagate(d1)
+            fresh = Orbit([a, e, i, 1.0, 0.5, 0.2], d0, "keplerian_mean", "EME2000", "J2").propagate(d1)
+            t.trans(2)
+            Om = float(r.copy(form="keplerian")[3])
+            rate = ((Om - 1.0 + math.pi) % (2 * math.pi) - math.pi) / (days * 86400.0)
+            ok = t.margin("sso: J2 node drift with re-used objects [rel] / 1e-4", abs(rate / want - 1), 1e-4, case)
+            same = np.array_equal(np.array(r, dtype=float), np.array(fresh, dtype=float))
+            if not ok or not same:
+                t.fail(sig, clause, case, [want, np.array(fresh, dtype=float)], [rate, np.array(r, dtype=float)],
+                       f"a={a} e={e}: node rate {rate:.6e} rad/s (solar {want:.6e}); equal to a fresh propagator: {same}")
+                return
+    except Exception as ex:
+        import traceback
+
+        if "/beyond/" not in traceback.extract_tb(ex.__traceback__)[-1].filename:
+            raise
+        t.fail(sig + "/raises", clause, case, "a state", repr(ex))
+        return
+    t.outcome(("sso_hist", mode))
+
+
 # ---------------------------------------------------------------------------
 # B-plane
 
@@ -352,6 +413,9 @@ def check_ltan(case, t):
 # Walker
 
 
+WALKER_RAAN0 = (0, 0.7, math.radians(130), 4.0, 6.0, math.radians(300), -1.0)
+
+
 def check_walker(case, t):
     from beyond.utils.constellation import WalkerStar, WalkerDelta
 
@@ -380,7 +444,10 @@ def check_walker(case, t):
 
     def rel(diff, *mags):
         # round-off of the library's expressions grows with the size of the angles it forms (nu reaches hundreds of rad)
-        return diff / (8 * ulp * (sum(abs(m) for m in mags) + two_pi))
+        # ... and nu contains spacing * (raan(i) - raan0) / per_plane: the cancellation error of (raan - raan0), one ulp of
+        # |raan0| + span, is amplified by 2 f / s
+        amp = (2.0 * f / s + 1.0) * (abs(raan0) + two_pi)
+        return diff / (8 * ulp * (sum(abs(m) for m in mags) + two_pi + amp))
 
     planes = [fleet[j * s : (j + 1) * s] for j in range(p)]
     for j, pl in enumerate(planes):
@@ -490,7 +557,7 @@ def check_beta(case, t):
 
 # ---------------------------------------------------------------------------
 
-CHECKS = dict(lambert=check_lambert, sso=check_sso, bplane=check_bplane, ltan=check_ltan, walker=check_walker, beta=check_beta)
+CHECKS = dict(lambert=check_lambert, sso=check_sso, sso_hist=check_sso_hist, bplane=check_bplane, ltan=check_ltan, walker=check_walker, beta=check_beta)
 
 
 def check_case(case, t):
@@ -521,6 +588,10 @@ def cases(tier):
     a_s = [6578e3 + k * (50e3 if q else 12.5e3) for k in range(120 if q else 480)]
     e_s = [0.0, 1e-4, 0.001, 0.01, 0.05, 0.2] if q else [0.0, 1e-6, 1e-4, 0.001, 0.01, 0.05, 0.1, 0.2, 0.4]
     out["sso"] = [dict(kind="sso", a=a, e=e) for a in a_s for e in e_s]
+    grid = [(a, e) for a in a_s for e in e_s]
+    for k in range(0, len(grid), 8):
+        for mode in ("shared", "inplace"):
+            out["sso"].append(dict(kind="sso_hist", mode=mode, grid=[list(x) for x in grid[k : k + 8]]))
     # B-plane
     es = [1.05, 1.5, 3.0, 10.0] if q else [1.05, 1.2, 1.5, 2.0, 3.0, 6.0, 10.0]
     fas = [-0.9, -0.5, -0.1, 0.1, 0.5, 0.9] if q else [-0.97, -0.9, -0.7, -0.5, -0.1, 0.0, 0.1, 0.5, 0.9, 0.97]
@@ -547,7 +618,7 @@ def cases(tier):
                 continue
             for f in range(p):
                 for cls in ("Star", "Delta"):
-                    for raan0 in (0, 0.7):
+                    for raan0 in WALKER_RAAN0:
                         wk.append(dict(kind="walker", t=tt, p=p, f=f, cls=cls, raan0=raan0))
     out["walker"] = wk
     # beta
